@@ -1,4 +1,5 @@
 mod dynlocale;
+mod fixture;
 mod props;
 
 fn main() {
